@@ -28,13 +28,15 @@ theorem create_read_failure_surfaces_bytes (a : CreateArgs) (data sched : List N
 /-! non-vacuity: without the failure the same stream yields a result -/
 example : (createFromRd Sfs.inflate3 decodeContainer {} (Rd.fresh (encodeContainer 7 ["s0"] ["1"] [("1", 5, [.genotype 1])] .vcf) [1, 2, 3] none)).isSome = true := by
   have hwf : WfCallSet ["s0"] ["1"] [("1", 5, [.genotype 1])] := by
-    refine ⟨by decide, ?_, by decide, ?_, by decide, ?_⟩
+    refine ⟨by decide, ?_, by decide, ?_, by decide, ?_, ?_⟩
     · simp only [List.mem_cons, List.not_mem_nil, or_false]
       rintro c rfl; unfold WfName; decide
     · simp only [List.mem_cons, List.not_mem_nil, or_false]
       rintro c rfl; unfold WfContig; decide
     · simp only [List.mem_cons, List.not_mem_nil, or_false]
       rintro r rfl; simp [WfGt]
+    · simp only [List.mem_cons, List.not_mem_nil, or_false]
+      rintro r rfl; decide
   have hfits : FitsBcf ["s0"] ["1"] [("1", 5, [.genotype 1])] := by
     refine ⟨by decide, by decide, by decide +kernel, ?_⟩
     simp only [List.mem_cons, List.not_mem_nil, or_false]
